@@ -4,6 +4,6 @@ Require Import ExtrOcamlBasic.
 Extraction "model.ml" slen nl_sub lua_sub nl_byte lua_byte nl_find_init lua_find_init
   nl_strlt nl_strle nl_streq lua_strlt lua_strle lex_cmp
   nl_rep nl_rep_sep lua_rep nl_reverse nl_upper nl_lower lua_upper lua_lower
-  nl_pack_opts nl_unpack_opts nl_format lua_format nl_packsize lua_packsize nl_utf8len lua_utf8len nl_utf8offset lua_utf8offset offset_default nl_codes_step nl_utf8codepoint lua_utf8codepoint nl_utf8char lua_utf8char nl_utf8decode nl_pack_int nl_pack_uint nl_unpack_int lua_pack_int lua_pack_uint
+  nl_pack_opts nl_unpack_opts nl_format nl_format_b lua_format nl_packsize lua_packsize nl_utf8len lua_utf8len nl_utf8offset lua_utf8offset offset_default nl_codes_step nl_utf8codepoint lua_utf8codepoint nl_utf8char lua_utf8char nl_utf8decode nl_pack_int nl_pack_uint nl_unpack_int lua_pack_int lua_pack_uint
   run_match nl_cfg lua_cfg nl_ms_match lua_do_search nl_gmatch_next nl_gsub lua_gsub has_specials nl_use_plain lua_use_plain plain_find onecapture
   nl_abs lua_abs nl_fmod lua_fmod nl_ult nl_max2 nl_min2 nl_max_l nl_min_l.
